@@ -328,19 +328,18 @@ Qed.
    rendering unchanged" (it inserts parentheses around a middle operand with a top-level , < or ?) *)
 Theorem parse_render_stage5 : forall cpp e,
   frag5 e = true -> wf e = true -> labels_ok e = true -> mid_ok e = true ->
-  decl_like (render e) = false ->
   prep (2 * length (render e ++ [semi])) (render e ++ [semi]) = render e ++ [semi] ->
   parse cpp (render e) = Some (tree_of e).
 Proof.
-  intros cpp e Hf Hw Hl Hm Hd Hp. destruct (main5 cpp e Hf Hw Hl Hm) as [HS _].
-  apply (parse_of_Sx cpp _ _ (rank e) HS); [apply rank_le|exact Hp|exact Hd].
+  intros cpp e Hf Hw Hl Hm Hp. destruct (main5 cpp e Hf Hw Hl Hm) as [HS _].
+  apply (parse_of_Sx cpp _ _ (rank e) HS); [apply rank_le|exact Hp].
 Qed.
 
 Theorem parse_render_stage4 : forall cpp e,
-  frag4 e = true -> wf e = true -> labels_ok e = true -> decl_like (render e) = false ->
+  frag4 e = true -> wf e = true -> labels_ok e = true ->
   parse cpp (render e) = Some (tree_of e).
 Proof.
-  intros cpp e Hf Hw Hl Hd. destruct (frag4_frag5 e Hf) as [H5 Hm].
+  intros cpp e Hf Hw Hl. destruct (frag4_frag5 e Hf) as [H5 Hm].
   apply parse_render_stage5; try assumption.
   apply prep_no_q. apply alltok_app; [apply frag4_no_q; exact Hf|apply alltok_one; reflexivity].
 Qed.
